@@ -16,6 +16,7 @@ fn receive_part() -> String {
         r##"  <transition event="mi"><script>{p}</script></transition>
   <transition event="m"><script>{p}</script><send eventexpr="'reply.' + _event.name" targetexpr="_event.origin" typeexpr="_event.origintype"/></transition>
   <transition event="reply"><script>{p}</script></transition>
+  <transition event="relay"><script>{p}</script><script>mark('deep', _event.data.o.k[1].z, _event.data.o.s)</script><send event="m.relayed" targetexpr="_event.origin" typeexpr="_event.origintype"><param name="o" expr="_event.data.o"/></send></transition>
   <transition event="done.invoke"><script>{p}</script></transition>
   <transition event="error"><script>mark('err', _event.name)</script></transition>"##,
         p = EVP
@@ -53,6 +54,8 @@ fn parent_doc(dm: &str, bid: u32) -> String {
   <transition event="cmd.8"><send event="m.a8" idlocation="gen" target="#_scxml_{bid}"/><send event="m.a8b" idlocation="gen2" target="#_scxml_{bid}"/><script>mark('genid', gen, gen2)</script></transition>
   <transition event="cmd.9"><send event="m.a9" id="explicit-id" target="#_scxml_{bid}"/></transition>
   <transition event="cmd.10"><send event="mi.a10" targetexpr="'#_' + 'internal'"/></transition>
+  <transition event="cmd.14"><send event="relay.a14" target="#_scxml_{bid}"><param name="o" expr="{nested}"/></send></transition>
+  <transition event="cmd.15"><send event="relay.a15" target="#_kid"><param name="o" expr="{nested}"/></send></transition>
   <transition event="cmd.11"><send event="m.fenceA"/></transition>
   <transition event="cmd.12"><send event="m.fenceB" target="#_scxml_{bid}"/></transition>
   <transition event="cmd.13"><send event="m.fenceC" target="#_kid"/></transition>
@@ -62,6 +65,7 @@ fn parent_doc(dm: &str, bid: u32) -> String {
         dm = dm,
         bid = bid,
         scxml = SCXML_TYPE,
+        nested = if dm == "ecmascript" { "({k: [1, {z: 2}], s: 'x'})" } else { "{'k': [1, {'z': 2}], 's': 'x'}" },
         child = child_doc(dm),
         recv = receive_part()
     )
@@ -90,6 +94,7 @@ fn blank(v: &V) -> bool {
 fn loose(a: &V, b: &V) -> bool {
     match (a, b) {
         (V::Int(x), V::Dbl(y)) | (V::Dbl(y), V::Int(x)) => (*x as f64) == *y,
+        (V::Arr(x), V::Arr(y)) => x.len() == y.len() && x.iter().zip(y.iter()).all(|(v, w)| loose(v, w)),
         (V::Map(x), V::Map(y)) => x.len() == y.len() && x.iter().all(|(k, v)| y.get(k).map(|w| loose(v, w)).unwrap_or(false)),
         _ => a.same(b) || (blank(a) && blank(b)),
     }
@@ -122,7 +127,7 @@ fn routing(dm: &str, rep: &mut Report) {
     wait_stable(&mut a, 2); // m.c1, m.c2 from the child
     let aid = a.session.session_id;
     let mut sent = 2;
-    for k in 1..=13 {
+    for k in [1, 2, 3, 4, 5, 6, 7, 8, 9, 10, 14, 15, 11, 12, 13] {
         a.send(&format!("cmd.{}", k));
         sent += 1;
         wait_stable(&mut a, sent);
@@ -175,6 +180,7 @@ fn routing(dm: &str, rep: &mut Report) {
         }
         V::Map(m)
     };
+    let nested = map(&[("k", V::Arr(vec![V::Int(1), map(&[("z", V::Int(2))])])), ("s", V::Str("x".into()))]);
     let wants = vec![
         Want { name: "m.c1", session: 'A', internal: false, origin_of: Some('C'), sendid: None, data: Some(map(&[("from", V::Str("child".into())), ("cv", V::Int(9))])), invokeid: true },
         Want { name: "m.c2", session: 'A', internal: false, origin_of: Some('C'), sendid: None, data: Some(V::Str("child content".into())), invokeid: true },
@@ -188,6 +194,9 @@ fn routing(dm: &str, rep: &mut Report) {
         Want { name: "m.a8", session: 'B', internal: false, origin_of: Some('A'), sendid: Some("<generated>"), data: None, invokeid: false },
         Want { name: "m.a9", session: 'B', internal: false, origin_of: Some('A'), sendid: Some("explicit-id"), data: None, invokeid: false },
         Want { name: "mi.a10", session: 'A', internal: true, origin_of: None, sendid: None, data: None, invokeid: false },
+        // nested payloads keep their structure, also when relayed by the receiver
+        Want { name: "relay.a14", session: 'B', internal: false, origin_of: Some('A'), sendid: None, data: Some(map(&[("o", nested.clone())])), invokeid: false },
+        Want { name: "relay.a15", session: 'C', internal: false, origin_of: Some('A'), sendid: None, data: Some(map(&[("o", nested.clone())])), invokeid: false },
         // reply legs: the reply to an event reaches the original sender
         Want { name: "reply.m.c1", session: 'C', internal: false, origin_of: Some('A'), sendid: None, data: None, invokeid: false },
         Want { name: "reply.m.a3", session: 'A', internal: false, origin_of: Some('B'), sendid: None, data: None, invokeid: false },
@@ -320,6 +329,45 @@ fn routing(dm: &str, rep: &mut Report) {
                 None => rep.violation(&format!("payload:{}", wnt.name), &format!("[{}] {} was received but not seen by the _event probe", dm, wnt.name), w.clone()),
             }
         }
+    }
+    // relayed nested payloads: A receives m.relayed twice (from B and from the child), both intact;
+    // in-script access to the nested value worked at the relay
+    {
+        let relayed: Vec<&Vec<V>> = log
+            .iter()
+            .filter_map(|e| match &e.ev {
+                Ev::Mark { tag, args, session, .. } if tag == "ev" && *session == aid && matches!(args.first(), Some(V::Str(n)) if n == "m.relayed") => Some(args),
+                _ => None,
+            })
+            .collect();
+        rep.evaluations += 1;
+        if relayed.len() != 2 {
+            rep.violation("event-not-delivered:m.relayed", &format!("[{}] m.relayed was processed {} times by session A, expected 2 (from B and from the child)", dm, relayed.len()), w.clone());
+        }
+        let want = map(&[("o", nested.clone())]);
+        for args in relayed {
+            let got = args.get(6).cloned().unwrap_or(V::NoneV);
+            if !loose(&got, &want) {
+                rep.violation("payload:m.relayed", &format!("[{}] a nested payload relayed by its receiver arrives as {} instead of {}", dm, got.show(), want.show()), w.clone());
+            }
+        }
+        let deeps: Vec<&Vec<V>> = log
+            .iter()
+            .filter_map(|e| match &e.ev {
+                Ev::Mark { tag, args, .. } if tag == "deep" => Some(args),
+                _ => None,
+            })
+            .collect();
+        for d in &deeps {
+            let ok = d.len() == 2 && loose(&d[0], &V::Int(2)) && loose(&d[1], &V::Str("x".into()));
+            if !ok {
+                rep.violation("payload:nested-access", &format!("[{}] _event.data.o.k[1].z / _event.data.o.s read {:?} at the receiver instead of 2 / 'x'", dm, d.iter().map(|v| v.show()).collect::<Vec<_>>()), w.clone());
+            }
+        }
+        if deeps.len() != 2 {
+            rep.violation("payload:nested-access", &format!("[{}] the nested payload was readable at {} of 2 receivers", dm, deeps.len()), w.clone());
+        }
+        rep.count("nested_payloads_relayed", 2);
     }
     if genids.len() == 2 && genids[0] == genids[1] {
         rep.violation("generated-sendid-not-unique", &format!("[{}] two <send idlocation> generated the same id {}", dm, genids[0]), w.clone());
